@@ -941,9 +941,14 @@ where
         if is_deferred(node) {
             deferred.insert(ix as u16);
         }
-        if deferred.contains(&(ix as u16)) {
-            for child in predicate.node_edges(ix).expect("Already checked") {
-                deferred.insert(*child);
+    }
+    // Every descendant of a deferred node is deferred, however the nodes are numbered.
+    let mut pending: Vec<u16> = deferred.iter().copied().collect();
+    while let Some(ix) = pending.pop() {
+        // A child index that is not a node has no edges to follow.
+        for child in predicate.node_edges(ix as usize).unwrap_or_default() {
+            if deferred.insert(*child) {
+                pending.push(*child);
             }
         }
     }
